@@ -271,6 +271,48 @@ def _fail(why):
   return False
 
 
+def _teardown_clause(prog, rec):
+  """C03/C04 (single abort): every teardown node of an entered group runs exactly once, in order, after main."""
+  starts = [e[1] for e in LOG if e[0] == 'body-start']
+  if prog == 1:
+    s_rec = [p for p in rec.phases if p.name == 's']
+    entered = bool(s_rec) and s_rec[0].outcome is TR.PhaseOutcome.PASS
+    td = ['t1', 't2']
+    if not entered and ('t1' in starts or 'm1' in starts):
+      return 'main/teardown without completed setup'
+  else:
+    # P2 has no setup: the group counts as entered once its main sequence was reached, which the log
+    # shows as m1's thread having been started (an abort before that may legitimately skip the group)
+    entered = ('thread-start', 'm1') in LOG
+    td = ['t1', 't2', 't3', 't4']
+  if entered:
+    for t in td:
+      if starts.count(t) != 1:
+        return 'teardown nodes ran %r' % starts          # every teardown node exactly once
+    if 'm1' in starts and starts.index(td[0]) < starts.index('m1'):
+      return 'teardown before main'
+    if [x for x in starts if x in td] != td:
+      return 'teardown order %r' % starts
+    if 'final-teardown-begin' in [e[0] for e in LOG]:
+      i_final = [e[0] for e in LOG].index('final-teardown-begin')
+      if any(e[0] == 'body-start' and i > i_final for i, e in enumerate(LOG)):
+        return 'phase after plug teardown'
+  return ''
+
+
+def teardown_under_single_abort(prog, pa, dm, dt, p1, t1):
+  """Entry point for props/C03.py: only C03's clause is judged (plus termination)."""
+  durs = {'m1': dm, 't1': dt}
+  ex, s, dead = _run(prog, pa, -1, durs, [(p1, t1)])
+  reach()
+  if dead:
+    return False
+  for c in s.cos:
+    if c.name in ('executor', 'aborter') and (c.alive or c.exc is not None):
+      return False
+  return not _teardown_clause(prog, ex.test_state.test_record)
+
+
 def _monitor(ex, s, dead, prog, second_delay, durs):
   REASON[0] = ''
   if dead:
@@ -345,25 +387,10 @@ def _monitor(ex, s, dead, prog, second_delay, durs):
   # (c) teardown nodes of an entered group still run under a single abort
   starts = [e[1] for e in LOG if e[0] == 'body-start']
   if prog in (1, 2):
-    if prog == 1:
-      s_rec = [p for p in rec.phases if p.name == 's']
-      entered = bool(s_rec) and s_rec[0].outcome is TR.PhaseOutcome.PASS
-      td = ['t1', 't2']
-      if not entered and ('t1' in starts or 'm1' in starts):
-        return _fail('main/teardown without completed setup')
-    else:
-      # P2 has no setup: the group counts as entered once its main sequence was reached, which the log
-      # shows as m1's thread having been started (an abort before that may legitimately skip the group)
-      entered = ('thread-start', 'm1') in LOG
-      td = ['t1', 't2', 't3', 't4']
-    if entered and not two:
-      for t in td:
-        if starts.count(t) != 1:
-          return _fail('teardown nodes ran %r' % starts)          # every teardown node exactly once
-      if 'm1' in starts and starts.index(td[0]) < starts.index('m1'):
-        return _fail('teardown before main')
-      if [x for x in starts if x in td] != td:
-        return _fail('teardown order %r' % starts)
+    if not two:
+      why = _teardown_clause(prog, rec)
+      if why:
+        return _fail(why)
     if two and ('abort-return', 2) in LOG and ('abort-return', 1) in LOG:
       # a second abort cancels the running teardown phase and skips the remaining ones
       i2 = max(LOG.index(('abort-return', 2)), LOG.index(('abort-return', 1)))
